@@ -42,6 +42,9 @@ def random_config(rng, want_class=None, timeout_choices=(None, 3600, 3600, 0)):
     elif k < 0.4:
         # entries that name no facility / no severity the daemon knows (a destination that cannot be opened is fatal by design: not used)
         cfg.logs = '    "bogus.*" "file:b.log";\n    "*.nosuchlevel" "file:c.log";\n    "iauth.debug,bogus" "file:d.log";\n    "*.<=info" ( "file:e.log", "file:e.log" );'
+    elif k < 0.46:
+        # a destination that can be opened but not written to (a full disk), for everything including the core's own errors
+        cfg.logs = '    "*.*" ( "file:/dev/full", "file:all.log" );'
     return cfg
 
 
